@@ -937,3 +937,101 @@ def run_log_events(reads, channel='stdout', enabled=True, pname='worker', gname=
         return out
     finally:
         events.callbacks[:] = saved
+
+
+# ------------------------------------------------------------------ event types registered at run time
+
+def make_extension_class(k):
+    """A plug-in's event type: subclass of Event with its own payload."""
+    def payload(self):
+        return 'ext:%d' % k
+    return type('Ext%dEvent' % k, (events.Event,), {'payload': payload})
+
+
+def run_register_history(ops):
+    """ops: ('raise_builtin',) - a built-in event (TICK_5) is raised and enveloped |
+            ('register', name, k) - events.register(name, extension class k) |
+            ('raise_ext', k)      - an instance of extension class k is raised.
+    One real pool subscribed to EVENT receives everything.  Returns per raise
+    (eventname bytes from the header, payload bytes), read at byte level; the
+    registrations are undone afterwards."""
+    events.clear()
+    process.GlobalSerial.serial = -1
+    added = []
+    classes = {}
+    try:
+        pool, opts = make_pool('supervisor', 'pool', pool_events=[events.Event])
+        out = []
+        for op in ops:
+            if op[0] == 'register':
+                cls = classes.setdefault(op[2], make_extension_class(op[2]))
+                if not hasattr(events.EventTypes, op[1]):
+                    added.append(op[1])
+                events.register(op[1], cls)
+                continue
+            if op[0] == 'raise_builtin':
+                ev = events.Tick5Event(5, None)
+            else:
+                cls = classes.setdefault(op[1], make_extension_class(op[1]))
+                ev = cls()
+            data, exc, serial, ps = pool_send(pool, opts, ev)
+            out.append((data, exc))
+        return out
+    finally:
+        for name in added:
+            try:
+                delattr(events.EventTypes, name)
+            except AttributeError:
+                pass
+        events.clear()
+
+
+# ------------------------------------------------------------------ output held back at reap time, flushed by the real finish()
+
+def run_finish_flush(state, pid, held_out, held_err, sts, killing=False, laststart=100.0, startsecs=1,
+                     exitcodes=(0,), now=200.0, capmax=100, events_enabled=True, pname='worker', gname='grp'):
+    """A real Subprocess with real POutputDispatchers on stdout and stderr
+    (capture enabled, so short output is held back waiting for a possible token);
+    the child writes held_out / held_err and is then reaped by the real
+    Subprocess.finish(pid, sts).  Returns (raised AssertionError?, [(class name,
+    payload rendered AFTER finish returned)], state, pid after)."""
+    from supervisor import loggers
+    saved = list(events.callbacks)
+    try:
+        opts = AnsweringOptions()
+        opts.getLogger = loggers.getLogger
+        opts.loglevel = loggers.LevelsByName.INFO
+        opts.strip_ansi = False
+        cfg = FakePConfig(opts, pname, startsecs=startsecs, exitcodes=exitcodes)
+        for ch in ('stdout', 'stderr'):
+            setattr(cfg, ch + '_logfile', None)
+            setattr(cfg, ch + '_logfile_maxbytes', 0)
+            setattr(cfg, ch + '_logfile_backups', 0)
+            setattr(cfg, ch + '_syslog', False)
+            setattr(cfg, ch + '_events_enabled', events_enabled)
+            setattr(cfg, ch + '_capture_maxbytes', capmax)
+        proc = cfg.make_process(FakeGroup(gname) if gname is not None else None)
+        proc.state = state
+        proc.pid = pid
+        proc.killing = killing
+        proc.laststart = laststart
+        d_out = dispatchers.POutputDispatcher(proc, events.ProcessCommunicationStdoutEvent, 11)
+        d_err = dispatchers.POutputDispatcher(proc, events.ProcessCommunicationStderrEvent, 12)
+        proc.dispatchers = {11: d_out, 12: d_err}
+        proc.pipes = {'stdout': 11, 'stderr': 12, 'stdin': None}
+        got = []
+        events.subscribe(events.Event, got.append)
+        for fd, data, d in ((11, held_out, d_out), (12, held_err, d_err)):
+            if data:
+                opts.pending[fd] = data
+                d.handle_read_event()
+        before = len(got)
+        raised = False
+        with patched_time(now):
+            try:
+                proc.finish(pid, sts)
+            except AssertionError:
+                raised = True
+        return raised, render_events(got[:before]), render_events(got[before:]), proc.state, proc.pid
+    finally:
+        events.callbacks[:] = saved
